@@ -28,9 +28,11 @@ PROPERTY = "C33"
 LEVEL = "exploration"
 RULE = (
     "case = drawn mapping config (as C30, expire_on_commit on/off) + history of <=40 ops: half free-form over the transaction-heavy op "
-    "alphabet, half built on the template setup/commit/savepoint/ops/savepoint/add+delete+modify/rollback-to-savepoint/.../commit with "
+    "alphabet, the rest built on the template setup/commit/savepoint/ops/savepoint/add+delete+modify/rollback-to-savepoint/.../commit with "
     "drawn fill-in. Non-trivial: savepoint depth >=2 was reached, a savepoint (inner or enclosing) holding an add, a delete and a "
-    "modification (or key switch) was rolled back, and a commit followed; distinct = canonical JSON of (config, ops)"
+    "modification (or key switch) was rolled back, and a commit followed -- or a key switch flushed inside a savepoint that was released "
+    "and then undone by rolling back the enclosing transaction/savepoint, followed by a commit (15% of cases use a template for this); "
+    "distinct = canonical JSON of (config, ops)"
 )
 ASSUMPTIONS = [
     "SQLite only (file database, non-legacy transaction mode so that SAVEPOINT begins a transaction)",
@@ -84,9 +86,45 @@ def _template(draw):
 
 
 @st.composite
+def _keyswitch_template(draw):
+    """a persistent row's primary key is switched and flushed inside a savepoint, the savepoint is released,
+    then the enclosing transaction (or an enclosing savepoint) is rolled back; work continues and commits"""
+    nopk = [c for c in BODY if c != "pk"]
+    ops = [["new", 0, draw(small), 0], ["new", 0, draw(small), 0], ["new", 1, draw(small), 0], ["new", 1, draw(small), 0]]
+    ops += draw(st.lists(_op(E.SETUP_CODES), min_size=1, max_size=4))
+    ops.append(["commit", 0, 0, 0])
+    outer_sp = draw(st.booleans())  # roll back an enclosing savepoint instead of the whole transaction
+    if outer_sp:
+        ops += draw(st.lists(_op(nopk), min_size=0, max_size=2))
+        ops.append(["nested", 0, 0, 0])
+    ops += draw(st.lists(_op(nopk), min_size=0, max_size=2))
+    levels = draw(st.sampled_from([1, 1, 2]))
+    for _ in range(levels):
+        ops.append(["nested", 0, 0, 0])
+    ops.append(["pk", draw(small), 0, 0])
+    if draw(st.booleans()):
+        ops.append(["flush", 0, 0, 0])  # otherwise the release flushes
+    ops += draw(st.lists(_op(nopk), min_size=0, max_size=2))
+    for _ in range(levels):
+        ops.append(["release", 0, 0, 0])
+    ops += draw(st.lists(_op(nopk), min_size=0, max_size=2))
+    ops.append(["nrollback", 0, 1, 0] if outer_sp else ["rollback", 0, 0, 0])
+    ops += draw(st.lists(_op(["read", "set", "pk", "setparent", "append", "flush", "merge"]), min_size=1, max_size=4))
+    ops.append(["commit", 0, 0, 0])
+    ops += draw(st.lists(_op(C33_CODES), min_size=0, max_size=4))
+    return ops[:40]
+
+
+@st.composite
 def _cases(draw):
     cfg = draw(E.cfg_strategy("c33"))
-    if draw(st.integers(0, 9)) < 7:
+    pick = draw(st.integers(0, 19))
+    if pick < 3:
+        cfg = E.norm_cfg(dict(cfg, fam="pct", natpk=draw(st.sampled_from(["passive", "orm"])),
+                              fk_nullable=cfg.get("fk_nullable", True), inh=cfg.get("inh", False), fav=cfg.get("fav", False),
+                              m2m_coll=cfg.get("m2m_coll", "list"), m2m_bidir=cfg.get("m2m_bidir", "backref")))
+        ops = draw(_keyswitch_template())
+    elif pick < 15:
         ops = draw(_template())
     else:
         ops = draw(E.ops_strategy(C33_CODES, mid=("commit", "commit", "nested")))
@@ -107,7 +145,7 @@ def check(case, ctx):
             cls += [f"fam={cfg['fam']}", f"expire_on_commit={cfg['eoc']}"]
             if cfg.get("natpk"):
                 cls.append("natural-pk")
-            nontrivial = "commit-after-rich-rollback" in it.classes and any(c.startswith("savepoint-depth-2") or c.startswith("savepoint-depth-3") for c in it.classes)
+            nontrivial = "pk-switch-in-released-savepoint-then-outer-rollback" in it.classes or "commit-after-rich-rollback" in it.classes and any(c.startswith("savepoint-depth-2") or c.startswith("savepoint-depth-3") for c in it.classes)
             ctx.info("tx_points_checked", it.counters["tx_checks"])
             ctx.info("flush_points_compared", it.counters["flush_checks"])
             ctx.info("ops_executed", it.counters["ops"] - it.counters["skipped"])
